@@ -141,7 +141,9 @@ fn apply_diff_map<const N: usize, Key, Diff, Target, Name, Mapping>(
 			Action::Add(b) => {
 				let mut info = Mapping::from_key(key.clone());
 
-				info.get_names_mut()[target_namespace] = Some(b.clone());
+				// goes through the same checks as a name change of an existing target: the first namespace can't be edited
+				info.get_names_mut().change_name(target_namespace, None, Some(b))
+					.with_context(|| anyhow!("cannot apply action {:?} on non existing target for key {key:?}", diff.get_node_info()))?;
 
 				let node = Target::new(info);
 
